@@ -103,6 +103,50 @@ Fixpoint camel_scan (at_start : bool) (s : string) : string :=
   end.
 
 (* ------------------------------------------------------------------------- *)
+(* vocabulary of the statements about case conversion                          *)
+(* ------------------------------------------------------------------------- *)
+
+Fixpoint string_In (c : ascii) (s : string) : Prop :=
+  match s with EmptyString => False | String x r => x = c \/ string_In c r end.
+
+Fixpoint count_char (c : ascii) (s : string) : nat :=
+  match s with
+  | EmptyString => O
+  | String x r => ((if Ascii.eqb x c then 1 else 0) + count_char c r)%nat
+  end.
+
+(* Names on which snake_to_camel is injective: SHOUTY names in which every
+   underscore is directly followed by a letter.  [good false r]: r continues a
+   word; [good true r]: r directly follows an underscore. *)
+Fixpoint good (at_start : bool) (s : string) : bool :=
+  match s with
+  | EmptyString => negb at_start
+  | String c r =>
+      if Ascii.eqb c underscore then negb at_start && good true r
+      else if at_start then is_upper c && good false r
+      else (is_upper c || is_digit c) && good false r
+  end.
+
+Definition letter_boundaries (s : string) : bool :=
+  match s with
+  | EmptyString => false
+  | String c r => is_upper c && good false r
+  end.
+
+Fixpoint unscan (t : string) : string :=
+  match t with
+  | EmptyString => EmptyString
+  | String c r => if is_upper c then String underscore (String c (unscan r)) else String (to_upper c) (unscan r)
+  end.
+
+
+Fixpoint cases_distinct (l : list ecase) : bool :=
+  match l with
+  | [] => true
+  | c :: t => negb (existsb (ecase_eqb c) t) && cases_distinct t
+  end.
+
+(* ------------------------------------------------------------------------- *)
 (* the enum_case attribute value                                               *)
 (* ------------------------------------------------------------------------- *)
 
